@@ -139,14 +139,27 @@ Definition oracle_ok (a s : Z) (n : nat) (sl : pyslice) : bool :=
   end.
 
 (* ---------- subvolume[a:b:c] on one axis: the documented meaning ---------- *)
-(* start absent or a coordinate of the axis; stop absent, a later coordinate, or one increment past the last; step absent
-   or a positive multiple of the increment in axis order *)
+(* an axis of either direction (s > 0 ascending, s < 0 descending).  start absent or a coordinate of the axis; stop absent,
+   a coordinate other than the first, or one increment past the last (a + n*s, below the last line of a descending axis);
+   step absent or a multiple of the increment that runs in axis order (positive quotient: a negative step on a descending
+   axis) *)
 Definition sub_slice_ok (a s : Z) (n : nat) (sl : pyslice) : bool :=
   (match sl_start sl with None => true | Some v => mem v (axis a s n) end) &&
   (match sl_stop sl with None => true | Some v => (mem v (axis a s n) && negb (v =? a)) || (v =? a + Z.of_nat n * s) end) &&
   (match sl_step sl with None => true | Some k => (k mod s =? 0) && (0 <? k / s) end).
-(* the coordinates it selects: range(start or first, stop or one-past-last, step or increment) *)
+(* the coordinates it selects: Python's range(start or first, stop or one-past-last, step or increment) *)
 Definition sub_coords (a s : Z) (n : nat) (sl : pyslice) : list Z :=
   range_list (match sl_start sl with None => a | Some v => v end)
              (match sl_stop sl with None => a + Z.of_nat n * s | Some v => v end)
              (match sl_step sl with None => s | Some k => k end).
+(* a bound that is no coordinate of the axis (a stop may also be the one-past-the-end sentinel): segyio has no such line *)
+Definition sub_start_bad (a s : Z) (n : nat) (sl : pyslice) : Prop :=
+  exists v, sl_start sl = Some v /\ ~ In v (axis a s n).
+Definition sub_stop_bad (a s : Z) (n : nat) (sl : pyslice) : Prop :=
+  exists w, sl_stop sl = Some w /\ ~ In w (axis a s n) /\ w <> a + Z.of_nat n * s.
+(* the extent test of _check_subscripts in plain terms: v lies in [first, one-past-last) along the axis direction ... *)
+Definition sub_start_inside (a s : Z) (n : nat) (v : Z) : Prop :=
+  (0 < s /\ a <= v < a + Z.of_nat n * s) \/ (s < 0 /\ a + Z.of_nat n * s < v <= a).
+(* ... and w in (first, one-past-last] *)
+Definition sub_stop_inside (a s : Z) (n : nat) (w : Z) : Prop :=
+  (0 < s /\ a < w <= a + Z.of_nat n * s) \/ (s < 0 /\ a + Z.of_nat n * s <= w < a).
